@@ -42,7 +42,14 @@ def observed_values(h):
     """[(label, [floats])] of the left operands of every h.eq executed (translator validation)"""
     import numpy as np
     res = []
-    for label, A in h.observed:
+    for ob in h.observed:
+        label, A = ob[0], ob[1]
+        sc = ob[2] if len(ob) > 2 else 1.0
+        sc = getattr(sc, 'val', sc)
+        try:
+            sc = max(1.0, abs(float(sc)))
+        except Exception:  # noqa: BLE001
+            sc = 1.0
         vals = []
         for x in np.asarray(A, dtype=object).ravel():
             v = getattr(x, 'val', x)
@@ -50,7 +57,7 @@ def observed_values(h):
                 vals.append(float(v))
             except Exception:  # noqa: BLE001
                 vals.append(None)
-        res.append((label, vals))
+        res.append((label, vals, sc))
     return res
 
 
